@@ -49,11 +49,15 @@ impl Parsed {
         // First add all modules to the tree
         for (i, file) in file_tree.files.iter().enumerate() {
             let ident: Identifier = (&file.module_name).into();
+            // The module itself is located at the first character of the
+            // file, which might be more than one byte long or absent.
+            let first_char_len =
+                file.contents.chars().next().map_or(0, char::len_utf8);
             let ident = spans.add(
                 Span {
                     file: i,
                     start: 0,
-                    end: 1,
+                    end: first_char_len,
                 },
                 ident,
             );
